@@ -43,4 +43,26 @@ Definition ex_step (e : RetryP.env nat nat) (k : nat) : option nat :=
 Example chain_reverse_order : RetryP.loop nat nat ex_step 3 [] [2; 1; 0] = Some [(2, 12); (1, 11); (0, 10)].
 Proof. vm_compute. reflexivity. Qed.
 
-Print Assumptions retry_least. Print Assumptions retry_order_independent. Print Assumptions pass_only_shrinks.
+(* non-vacuity of retry_order_independent: the same chain in two orders gives the same lookups *)
+Example chain_two_orders : forall k,
+  RetryP.lookup nat nat Nat.eq_dec (fst (RetryP.loop_env nat nat ex_step 3 [] [2; 1; 0])) k =
+  RetryP.lookup nat nat Nat.eq_dec (fst (RetryP.loop_env nat nat ex_step 3 [] [1; 0; 2])) k.
+Proof. intro k. do 3 (destruct k as [|k]; [vm_compute; reflexivity|]). vm_compute. reflexivity. Qed.
+
+(* the monotonicity hypothesis cannot be dropped: a step that answers from a default when its target is not resolved yet
+   (the abstract shape of known finding K3: an element evaluated against a registered but unplaced target) succeeds in both
+   orders of the same two elements and gives different values *)
+Definition k3_step (e : RetryP.env nat nat) (k : nat) : option nat :=
+  match k with
+  | 0 => Some 10
+  | S j => match RetryP.lookup nat nat Nat.eq_dec e j with Some v => Some (v + 1) | None => Some 0 end
+  end.
+Theorem order_independence_needs_monotone_refuted :
+  exists ef ef' : RetryP.env nat nat,
+  (RetryP.loop_env nat nat k3_step 2 [] [0; 1] = (ef, @nil nat)) /\
+  (RetryP.loop_env nat nat k3_step 2 [] [1; 0] = (ef', @nil nat)) /\
+  (RetryP.lookup nat nat Nat.eq_dec ef 1 <> RetryP.lookup nat nat Nat.eq_dec ef' 1).
+Proof. exists [(1, 11); (0, 10)], [(0, 10); (1, 0)]. repeat split; try (vm_compute; reflexivity). vm_compute. discriminate. Qed.
+
+
+Print Assumptions retry_least. Print Assumptions order_independence_needs_monotone_refuted. Print Assumptions retry_order_independent. Print Assumptions pass_only_shrinks.
